@@ -210,11 +210,13 @@ def run(ctx):
     body = lv.body
     # (c)
     ctx.r1('c', VCD, Sink('MKProof::verify', 'mithril_merkle_tree::merkle_tree::MKProof::verify', 'ok'))
-    ctx.arg_origin('c', VCD, 'mithril_merkle_tree::merkle_tree::MKTree::compute_proof', 1,
-                   require=['call:*compute_digests_for_range'], desc='(leaves) <- digests computed from database_dir')
-    ctx.arg_origin('c', VCD, 'mithril_merkle_tree::merkle_tree::MKTree::compute_proof', 0,
-                   require=['pty:VerifiedDigests.merkle_tree'], desc='(tree) <- verified_digests.merkle_tree')
-    ctx.arg_origin('c', VCD, '*::compute_digests_for_range', 1, require=['p#6'], desc='(dir) <- database_dir')
+    # provenance, wherever under verify_cardano_database the calls sit (the digest computation may live in an awaited private helper)
+    CDR = '*::compute_digests_for_range'
+    ctx.sink_arg('c', VCD, 'mithril_merkle_tree::merkle_tree::MKTree::compute_proof', 1,
+                 require_via=[CDR], desc='(leaves) <- digests computed from database_dir')
+    ctx.sink_arg('c', VCD, 'mithril_merkle_tree::merkle_tree::MKTree::compute_proof', 0,
+                 require=['pty:VerifiedDigests.merkle_tree'], desc='(tree) <- verified_digests.merkle_tree')
+    ctx.sink_arg('c', VCD, CDR, 1, require=['pty:Path'], desc='(dir) <- database_dir')
     # (b),(d): is_empty() guards gating success
     emp = [c for c in body.calls() if any(glob_match('std::vec::Vec::is_empty', n) or glob_match('*::is_empty', n) for n in c.names())]
     kinds = {'missing': [], 'tampered': [], 'non_verifiable': []}
@@ -273,12 +275,12 @@ def run(ctx):
             R.violation('b', 'R6', inst, 'verify_db:allow-missing', 'success reachable without listing missing files and without allow_missing', v.loc())
         else:
             R.ok('b', 'R6', inst, '', v.loc())
-        ctx.arg_origin('b', VCD, '*list_missing_immutable_files', 0, require=['p#6'], desc='(dir) <- database_dir')
+        ctx.sink_arg('b', VCD, '*list_missing_immutable_files', 0, require=['pty:Path'], desc='(dir) <- database_dir')
     # (d) provenance of the per-name comparison
-    ctx.arg_origin('d', VCD, P + 'VerifiedDigests::list_immutable_files_not_verified', 1, require=['call:*compute_digests_for_range'],
-                   desc='(computed) <- digests computed from database_dir')
-    ctx.arg_origin('d', VCD, P + 'VerifiedDigests::list_immutable_files_not_verified', 0, require=['p#7'],
-                   desc='(self) <- verified_digests')
+    ctx.sink_arg('d', VCD, P + 'VerifiedDigests::list_immutable_files_not_verified', 1, require_via=[CDR],
+                 desc='(computed) <- digests computed from database_dir')
+    ctx.sink_arg('d', VCD, P + 'VerifiedDigests::list_immutable_files_not_verified', 0, require=['pty:VerifiedDigests'],
+                 desc='(self) <- verified_digests')
     ln = ctx.try_fn('d', P + 'VerifiedDigests::list_immutable_files_not_verified')
     if ln is not None:
         b2 = ln.body
